@@ -394,7 +394,7 @@ func init() {
 				roots := []string{`[]`, ` [ ] `, `{}`, `{"op":"remove","path":"/a"}`, `"[]"`, `7`, `true`, `null`, ``, ` `, `[[]]`, `[{}]`, `[null]`, "\n[\n]\n", `[]]`, `[`}
 				judgeDecode(c, roots[idx], "root")
 			}},
-			{Name: "generated-valid-patches", Count: n(30000, 600000), Run: func(c *core.Ctx, idx int) {
+			{Name: "generated-valid-patches", Count: n(30000, 1800000), Run: func(c *core.Ctx, idx int) {
 				cfg := &SeqCfg{Prof: seqProf, MinOps: 0, MaxOps: 8, MissRate: 30, RootOK: true, ContinueAfterFail: true}
 				sc := GenSeq(c.R, cfg, V5Opts{NegIdx: true}.Ref())
 				t := sc.Patch()
@@ -403,7 +403,7 @@ func init() {
 				}
 				judgeDecode(c, t, "generated-valid")
 			}},
-			{Name: "mutated-bytes", Count: n(60000, 1500000), Run: func(c *core.Ctx, idx int) {
+			{Name: "mutated-bytes", Count: n(60000, 4500000), Run: func(c *core.Ctx, idx int) {
 				var t string
 				switch c.R.Intn(4) {
 				case 0:
